@@ -164,7 +164,27 @@ pub fn run(tier: &str, seed: u64, report: &mut Report) {
         let case_seed = seed.wrapping_mul(433494437).wrapping_add(h as u64);
         let mut rng = Rng::new(case_seed);
         let go = GenOpts { max_nodes: 14, block: 16, cap: 8, ..Default::default() };
-        let steps = gen_history(&mut rng, if thorough { 20 } else { 12 }, &go, true, true);
+        let mut steps = gen_history(&mut rng, if thorough { 20 } else { 12 }, &go, true, true);
+        if h == 0 {
+            // directed: small files that fill a combined block exactly (the combiner flushes by itself and
+            // parks the finished entries), then a hunk boundary reached by entries that bypass the combiner
+            // (empty files, a directory), then another small file — in three variations of the hunk size
+            let mk = |name: &str, kind: NodeKind, m: i64| Node { comps: if name.is_empty() { vec![] } else { name.split('/').map(|x| x.to_string()).collect() }, kind, mode: if name.is_empty() { 0o755 } else { 0o644 }, mtime_ns: 1_600_000_000_000_000_000 + m, uid: 0, gid: 0 };
+            let mut t = Tree::default();
+            t.nodes.insert("/".into(), mk("", NodeKind::Dir, 0));
+            t.nodes.insert("/a".into(), mk("a", NodeKind::File(b"aaaaa".to_vec()), 1));
+            t.nodes.insert("/b".into(), mk("b", NodeKind::File(b"bbbbb".to_vec()), 2));
+            t.nodes.insert("/c".into(), mk("c", NodeKind::File(vec![]), 3));
+            t.nodes.insert("/d".into(), mk("d", NodeKind::File(vec![]), 4));
+            t.nodes.insert("/e".into(), mk("e", NodeKind::File(b"ee".to_vec()), 5));
+            t.nodes.insert("/f".into(), mk("f", NodeKind::File(b"0123456789abcdef0123".to_vec()), 6));
+            t.nodes.insert("/g".into(), mk("g", NodeKind::File(b"gg".to_vec()), 7));
+            steps = vec![Step::SetTree(t.clone())];
+            for hunk in [3usize, 2, 4] {
+                steps.push(Step::Backup(BackupParamsLite { hunk, block: 8, cap: 6 }));
+                steps.push(Step::Delete(vec![], false));
+            }
+        }
         let case_id = json!({"case_seed": case_seed, "steps": history_json(&steps)});
         let o = HistOpts { restore_each: false, raw: false, sig: "fmt" };
         let run = run_history(&steps, &o, report, &case_id);
